@@ -9,7 +9,7 @@ from pathlib import Path
 
 from harness import common
 from harness.common import Ck, VERIF
-from translate import c15_frame, c15_pixel
+from translate import c15_container, c15_frame, c15_pixel
 
 MANIFEST = dict(
     technique='Rocq proof (symbolic bit-level evaluation of the translated pixel codecs proved sound, so the round-trip laws hold '
@@ -37,6 +37,8 @@ MANIFEST = dict(
 
 IMPORTS = ['Coq.NArith.NArith', 'Coq.ZArith.ZArith', 'Coq.Lists.List', 'SV.Fmt.VtfPixelExpr', 'SV.Fmt.VtfLayout',
            'SV.Gen.PixelCodecs_gen', 'SV.Gen.VtfLayout_gen']
+IMPORTS_CONT = ['Coq.NArith.NArith', 'Coq.ZArith.ZArith', 'Coq.Lists.List', 'Coq.Strings.String', 'Coq.Bool.Bool', 'SV.Bin.Struct',
+                'SV.Fmt.VtfContainer', 'SV.Gen.VtfContainer_gen']
 IMPORTS_FRAME = ['Coq.Lists.List', 'Coq.Strings.String', 'Coq.Bool.Bool', 'SV.Fmt.VtfFrameSM', 'SV.Gen.VtfFrameSM_gen']
 
 # format (lower case) -> (specification of load-after-save, canonical stored form)
@@ -717,6 +719,268 @@ def search_filters(ck: Ck) -> None:
 
 
 
+
+# ================================================================================================ container
+_SITES = ['version', 'header', 'depth', 'res_count', 'entry_inline', 'sheet_head', 'sheet_seq', 'sheet_dur', 'sheet_tex']
+CONT_OBS = {f'site_{n}_same_format_and_field_order_on_both_sides': f'site_ok gen_{n}' for n in _SITES}
+CONT_OBS.update({
+    'header_is_51_bytes_and_15_values': '(Nat.eqb (calcsize (fmt_of (w_fmt gen_header))) 51 && Nat.eqb (nvalues (fmt_of (w_fmt gen_header))) 15)%bool',
+    'offset_entries_are_id_flags_then_a_deferred_4_byte_slot_like_the_reader_expects':
+        '(negb (Nat.eqb (List.length gen_entry_offset_w) 0) && forallb (fun e => fmt_eqb (fmt_of (fst (fst e)) ++ fmt_of (snd e)) (fmt_of (r_fmt gen_entry_inline)) '
+        '&& Nat.eqb (List.length (snd (fst e))) 2) gen_entry_offset_w)%bool',
+    'data_block_length_written_and_read_with_the_same_format':
+        '(negb (Nat.eqb (List.length gen_block_len_w) 0) && forallb (fun f => fmt_eqb (fmt_of f) (fmt_of (fst gen_block_len_r))) gen_block_len_w '
+        '&& Z.eqb (snd gen_block_len_r) (Z.of_nat (calcsize (fmt_of (fst gen_block_len_r)))))%bool',
+    'every_deferred_offset_is_filled_with_the_position_of_its_data':
+        '(forallb (fun d => existsb (fun sd => String.eqb (fst sd) (fst (fst d)) && String.eqb (snd sd) "file.tell()") gen_set_data) gen_defers '
+        '&& Nat.eqb (List.length gen_defers) (List.length gen_set_data) '
+        '&& forallb (fun d => Bool.eqb (snd d) (negb (String.eqb (fst (fst d)) "\'header_size\'"))) gen_defers)%bool',
+    'version_tests_agree_between_save_and_read':
+        '(forallb (fun g => existsb (fun h => String.eqb (fst g) (fst h) && Z.eqb (snd g) (snd h)) gen_read_guards) gen_save_guards '
+        '&& forallb (fun g => existsb (fun h => String.eqb (fst g) (fst h) && Z.eqb (snd g) (snd h)) gen_save_guards) gen_read_guards '
+        '&& forallb (fun g => String.eqb (fst g) ">=" && (Z.eqb (snd g) 2 || Z.eqb (snd g) 3)) gen_read_guards)%bool',
+    'padding_before_7_3_has_the_size_of_the_resource_count_record':
+        'match gen_pads with (p :: nil) => Z.eqb p (Z.of_nat (calcsize (fmt_of (w_fmt gen_res_count)))) | _ => false end',
+    'header_values_end_up_in_their_attributes':
+        'forallb (fun e => existsb (fun g => String.eqb (fst g) (fst e) && strs_eqb (snd g) (snd e)) gen_read_attrs) '
+        '(("width", "width" :: nil) :: ("height", "height" :: nil) :: ("frame_count", "frame_count" :: nil) :: ("first_frame_index", "first_frame_index" :: nil) '
+        ':: ("mipmap_count", "mipmap_count" :: nil) :: ("flags", "VTFFlags(flags)" :: nil) :: ("reflectivity", "Vec(ref_r, ref_g, ref_b)" :: nil) '
+        ':: ("bumpmap_scale", "bumpmap_scale" :: nil) :: ("format", "FORMAT_ORDER[high_format]" :: nil) '
+        ':: ("version", "(version_major, version_minor)" :: nil) :: ("low_format", "FORMAT_ORDER[low_format]" :: nil) :: nil)%string',
+    'reader_tests_resource_flag_2': 'gen_read_tests_flag_2',
+    'sheet_reader_advances_by_the_record_sizes':
+        'match gen_sheet_incs with (a :: b :: c :: d :: e :: nil) => (Z.eqb a (Z.of_nat (calcsize (fmt_of (r_fmt gen_sheet_head)))) '
+        '&& Z.eqb b (Z.of_nat (calcsize (fmt_of (r_fmt gen_sheet_seq)))) && Z.eqb c (Z.of_nat (calcsize (fmt_of (r_fmt gen_sheet_dur)))) '
+        '&& Z.eqb d (Z.of_nat (calcsize (fmt_of (r_fmt gen_sheet_tex)))) && Z.eqb e (4 * Z.of_nat (calcsize (fmt_of (r_fmt gen_sheet_tex)))))%bool | _ => false end',
+    'sheet_reader_takes_the_four_coordinates_at_0_16_32_48':
+        'strs_eqb gen_sheet_tex_offs ("offset" :: "offset" :: "offset + 16" :: "offset + 32" :: "offset + 48" :: nil)%string',
+    'sheet_writer_emits_coordinates_a_b_c_d_in_order': 'strs_eqb gen_sheet_tex_written ("tex_a" :: "tex_b" :: "tex_c" :: "tex_d" :: nil)%string',
+    'sheet_version_tests_present_on_both_sides':
+        '(existsb (String.eqb "version == 1") gen_sheet_tests && existsb (String.eqb "version == 0") gen_sheet_tests)%bool%string',
+})
+
+PRE_CONT = """Import ListNotations. Open Scope list_scope.
+Definition F : cfmts := {| f_version := fmt_of (w_fmt gen_version); f_header := fmt_of (w_fmt gen_header); f_depth := fmt_of (w_fmt gen_depth);
+  f_count := fmt_of (w_fmt gen_res_count); f_entry := fmt_of (w_fmt gen_entry_inline); f_len := fmt_of (fst gen_block_len_r) |}.
+Definition SF : sfmts := {| s_head := fmt_of (w_fmt gen_sheet_head); s_seq := fmt_of (w_fmt gen_sheet_seq); s_dur := fmt_of (w_fmt gen_sheet_dur);
+  s_tex := fmt_of (w_fmt gen_sheet_tex) |}.
+Definition zn (z : Z) : N := Z.to_N (z + 4294967296).
+Definition serv (v : value) : list N := match v with VInt z => [zn z] | VFloat b => [b] | VBool b => [if b then 1 else 0]%N | VBytes l => l end.
+Definition ser_res (r : list N * Z * resval) : list N :=
+  let '(id, fl, x) := r in id ++ [zn fl] ++ match x with RInline v => [0; zn v]%N | RData d => [1; N.of_nat (List.length d)]%N ++ d end.
+Definition ser_sheet (bs : list N) : list N :=
+  match read_sheet SF bs with
+  | None => [777]%N
+  | Some (ver, qs) => [zn ver; N.of_nat (List.length qs)] ++ flat_map (fun q => [zn (sq_num q); (if sq_clamp q then 1 else 0)%N; sq_total q; N.of_nat (List.length (sq_frames q))]
+        ++ flat_map (fun f => sf_duration f :: List.concat (sf_coords f)) (sq_frames q)) qs
+  end.
+Definition dec (low_size : nat) (bs : list N) : list N :=
+  match decode_file F low_size bs with
+  | None => [999]%N
+  | Some (m, hdr, d, res, sheet, lo, hi) =>
+      [zn m] ++ flat_map serv hdr ++ [zn d; N.of_nat (List.length res)] ++ flat_map ser_res res
+      ++ match sheet with Some sb => 1%N :: ser_sheet sb | None => [0]%N end ++ [N.of_nat lo; N.of_nat hi]
+  end.
+Definition enc (v : vfile) : list N := match encode_file F v with Some bs => bs | None => [999]%N end.
+Definition mk_sheet (ver : Z) (qs : list sheet_seq) : list N := match make_sheet SF ver qs with Some bs => bs | None => [999]%N end.
+"""
+
+
+def _fbits(x: float) -> int:
+    return struct.unpack('<I', struct.pack('<f', x))[0]
+
+
+def _zn(z: int) -> int:
+    return z + 4294967296
+
+
+def cont_config(rng: random.Random, fmts: list[str]) -> dict:
+    w, h = rng.choice([(1, 1), (2, 1), (1, 4), (2, 2), (4, 2), (4, 4), (8, 2), (2, 8), (8, 8)])
+    small = [f for f in fmts if 'BLUESCREEN' not in f]
+    c = gen_config(rng, w, h, small)
+    c['save_version'] = None
+    c['mode'] = 'explicit'
+    return c
+
+
+def _build_vtf(cfg: dict):
+    from srctools.vtf import VTF, ImageFormats, VTFFlags, Resource, ResourceID, SheetSequence, TexCoord
+    from srctools.math import Vec
+    rng = random.Random(cfg['seed'])
+    sheet = {}
+    if cfg['sheet']:
+        for sn, sq in cfg['sheet'].items():
+            sheet[int(sn)] = SheetSequence([(d, *[TexCoord(*t) for t in tcs]) for d, tcs in sq['frames']], sq['clamp'], sq['duration'])
+    vtf = VTF(cfg['w'], cfg['h'], version=(7, cfg['version']), ref=Vec(*cfg['ref']), frames=cfg['frames'], bump_scale=cfg['bump'],
+              sheet_info=sheet, flags=VTFFlags(cfg['flags'] | (0x4000 if cfg['cube'] else 0)), fmt=ImageFormats[cfg['fmt']],
+              thumb_fmt=ImageFormats[cfg['thumb']], depth=cfg['depth'])
+    vtf.first_frame_index = cfg['first_frame']
+    for rid, fl, data in cfg['resources']:
+        key = rid.encode('latin1')
+        try:
+            key = ResourceID(key)
+        except ValueError:
+            pass
+        vtf.resources[key] = Resource(fl, data if isinstance(data, int) else bytes.fromhex(data))
+    for fr in vtf._frames.values():
+        fr.copy_from(rng.randbytes(4 * fr.width * fr.height))
+    vtf._low_res.copy_from(rng.randbytes(4 * 16 * 16))
+    return vtf
+
+
+def _expected_meta(cfg: dict, vtf, n_extra_res: int) -> list[int]:
+    """the serialisation `dec` must print, from the configuration (not from the file)"""
+    ver = cfg['version']
+    n_res = len(cfg['resources']) + 2 + (1 if cfg['sheet'] else 0)
+    hs = 80 + 8 * n_res if ver >= 3 else 80
+    out = [_zn(ver), _zn(hs), _zn(cfg['w']), _zn(cfg['h']), _zn(cfg['flags'] | (0x4000 if cfg['cube'] else 0)), _zn(cfg['frames']), _zn(cfg['first_frame'])]
+    out += [_fbits(x) for x in cfg['ref']] + [_fbits(cfg['bump'])]
+    out += [_zn(vtf.format.bin_value(True)), _zn(vtf.mipmap_count), _zn(vtf.low_format.bin_value(True)), _zn(16), _zn(16)]
+    out += [_zn(cfg['depth'])]
+    if ver >= 3:
+        out.append(len(cfg['resources']))
+        for rid, fl, data in cfg['resources']:
+            out += list(rid.encode('latin1'))
+            if isinstance(data, int):
+                out += [_zn(fl | 2), 0, _zn(data)]
+            else:
+                d = bytes.fromhex(data)
+                out += [_zn(fl & ~2), 1, len(d)] + list(d)
+        if cfg['sheet']:
+            out += [1, _zn(cfg['sheet_ver']), len(cfg['sheet'])]
+            for sn, sq in cfg['sheet'].items():
+                out += [_zn(int(sn)), 1 if sq['clamp'] else 0, _fbits(sq['duration']), len(sq['frames'])]
+                for d, tcs in sq['frames']:
+                    out.append(_fbits(d))
+                    for t in tcs:
+                        out += [_fbits(x) for x in t]
+        else:
+            out.append(0)
+    else:
+        out += [0, 0]
+    return out
+
+
+def _coq_sheet(cfg: dict) -> str:
+    qs = []
+    for sn, sq in cfg['sheet'].items():
+        frs = '; '.join('{| sf_duration := %d; sf_coords := [%s] |}' % (_fbits(d), '; '.join('[' + '; '.join(str(_fbits(x)) for x in t) + ']%N' for t in tcs))
+                        for d, tcs in sq['frames'])
+        qs.append('{| sq_num := %d; sq_clamp := %s; sq_total := %d; sq_frames := [%s] |}' % (int(sn), 'true' if sq['clamp'] else 'false', _fbits(sq['duration']), frs))
+    return f'(mk_sheet {cfg["sheet_ver"]} [{"; ".join(qs)}])'
+
+
+def corr_container(ck: Ck) -> None:
+    """Both directions: files saved by the implementation are decoded by the Coq model (decode_file / read_sheet over the
+    GENERATED formats) and compared with the configuration; files encoded by the Coq model are read by VTF.read."""
+    from srctools.vtf import VTF, ImageFormats, SheetSequence
+    from srctools import _py_vtf_readwrite as rw
+    fmts = sorted(f.name for f in rw._SAVE if f in rw._LOAD)
+    n = ck.budget(14, 60)
+    cfgs = []
+    forced = [dict(version=2), dict(version=3, resources=[['CRC', 0, 7], ['KVD', 0, '0102030405']]), dict(version=4, cube=True, depth=1),
+              dict(version=5, cube=True, depth=1), dict(version=5, depth=3, frames=2)]
+    for i in range(n):
+        c = cont_config(ck.rng, fmts)
+        if i < len(forced):
+            c.update(forced[i])
+            if c['version'] < 3:
+                c['resources'], c['sheet'] = [], None
+        cfgs.append(c)
+    exprs, metas = [], []
+    for c in cfgs:
+        try:
+            vtf = _build_vtf(c)
+            buf = io.BytesIO()
+            vtf.save(buf, sheet_seq_version=c['sheet_ver'])
+        except Exception as e:
+            ck.violation(f'save-raises-{type(e).__name__}', f'save raised {type(e).__name__}: {e}', {'config': c})
+            continue
+        b1 = buf.getvalue()
+        lazy = VTF.read(io.BytesIO(b1))
+        offs = [f._fileinfo[1] for f in lazy._frames.values() if f._fileinfo]
+        low_fi = lazy._low_res._fileinfo
+        low_size = ImageFormats[c['thumb']].frame_size(16, 16) if c['thumb'] != 'NONE' else 0
+        exp = _expected_meta(c, vtf, 0)
+        hi = min(offs) if offs else len(b1)
+        lo = hi - low_size
+        exp += [lo if (c['version'] >= 3 or True) else 0, hi]
+        ck.count('container_files_decoded_by_model')
+        ck.hist('container_version', f'7.{c["version"]}')
+        ck.hist('container_shape', ('cube' if c['cube'] else f'depth{c["depth"]}') + f'/res{len(c["resources"])}' + ('/sheet' if c['sheet'] else ''))
+        ck.seen(('cont', json.dumps(c, sort_keys=True)))
+        exprs.append(f'dec (N.to_nat {low_size}%N) {common.coq_bytes(b1)}')
+        metas.append(('dec', c, exp, None))
+        # model -> implementation: same metadata, fresh random image blocks of the right sizes
+        r = random.Random(c['seed'] + 1)
+        order = [f for f in lazy._frames.values()]          # dict order of read() = order in the file
+        blocks = [r.randbytes(vtf.format.frame_size(f.width, f.height)) for f in order]
+        lowb = r.randbytes(low_size)
+        hdr = [0, c['w'], c['h'], c['flags'] | (0x4000 if c['cube'] else 0), c['frames'], c['first_frame']]
+        hv = '; '.join(f'VInt {v}' for v in hdr) + '; ' + '; '.join(f'VFloat {_fbits(x)}' for x in c['ref']) + f'; VFloat {_fbits(c["bump"])}; ' \
+            + '; '.join(f'VInt ({v})' for v in [vtf.format.bin_value(True), vtf.mipmap_count, vtf.low_format.bin_value(True), 16, 16])
+        res = '; '.join('(%s, %d%%Z, %s)' % (common.coq_bytes(rid.encode('latin1')), fl,
+                                          f'RInline {d}%Z' if isinstance(d, int) else f'RData {common.coq_bytes(bytes.fromhex(d))}')
+                        for rid, fl, d in c['resources'])
+        sheet = f'Some {_coq_sheet(c)}' if c['sheet'] else 'None'
+        exprs.append('enc {| v_minor := %d; v_header := [%s]; v_depth := %d; v_res := [%s]; v_sheet := %s; v_low := %s; v_high := [%s] |}'
+                     % (c['version'], hv, c['depth'], res, sheet, common.coq_bytes(lowb), '; '.join(common.coq_bytes(b) for b in blocks)))
+        metas.append(('enc', c, (vtf, blocks, lowb, [k for k in lazy._frames]), None))
+    vals = ck.coq_eval(IMPORTS_CONT, exprs, name='container', preamble=PRE_CONT, timeout=600) if exprs else []
+    if vals is None:
+        ck.obligation('correspondence:container', False, 'the container model could not be evaluated in Coq')
+        ck.tie_broken.append('correspondence container: Coq evaluation failed')
+        return
+    bad = []
+    for (kind, c, exp, _), v in zip(metas, vals):
+        got = common.parse_coq_N_list(v)
+        if kind == 'dec':
+            if got != exp:
+                i = next((i for i, (a, b) in enumerate(zip(got, exp)) if a != b), min(len(got), len(exp)))
+                bad.append({'direction': 'implementation file decoded by the model', 'config': c, 'first_difference_at': i,
+                            'model': got[max(0, i - 2):i + 3], 'expected': exp[max(0, i - 2):i + 3]})
+            continue
+        vtf, blocks, lowb, keys = exp
+        ck.count('container_files_encoded_by_model')
+        try:
+            data = bytes(got)
+            v2 = VTF.read(io.BytesIO(data))
+            probs = []
+            for a in ('width', 'height', 'depth', 'frame_count', 'first_frame_index', 'mipmap_count', 'flags', 'format', 'low_format', 'bumpmap_scale', 'version'):
+                if getattr(v2, a) != getattr(vtf, a):
+                    probs.append(a)
+            if tuple(v2.reflectivity) != tuple(vtf.reflectivity):
+                probs.append('reflectivity')
+            want = [(k, (r.flags | 2) if isinstance(r.data, int) else (r.flags & ~2), r.data) for k, r in vtf.resources.items()]
+            if c['version'] >= 3 and want != [(k, r.flags, r.data) for k, r in v2.resources.items()]:
+                probs.append('resources')
+            s1 = {k: (q.frames, bool(q.clamp), q.duration) for k, q in vtf.sheet_info.items()}
+            s2 = {k: (q.frames, bool(q.clamp), q.duration) for k, q in v2.sheet_info.items()}
+            if c['version'] >= 3 and (s1 != s2 or list(s1) != list(s2)):
+                probs.append('sheet')
+            if list(v2._frames) != keys:
+                probs.append('frame keys')
+            for f, blk in zip(v2._frames.values(), blocks):
+                off = f._fileinfo[1]
+                if data[off:off + len(blk)] != blk:
+                    probs.append('frame bytes')
+                    break
+            if lowb and data[v2._low_res._fileinfo[1]:][:len(lowb)] != lowb:
+                probs.append('thumbnail bytes')
+            if probs:
+                bad.append({'direction': 'model file read by VTF.read', 'config': c, 'differs': probs})
+        except Exception as e:
+            bad.append({'direction': 'model file read by VTF.read', 'config': c, 'raises': f'{type(e).__name__}: {e}'})
+    ck.obligation('correspondence:container', not bad,
+                  f'{len(exprs) // 2} configurations (versions 7.2-7.5, cubemaps with/without sphere map, depth, frames, inline and out-of-line resources, '
+                  f'sheets v0/v1, float fields as bit patterns): files saved by VTF.save decode in the Coq model (generated formats) to the configuration, '
+                  f'and files encoded by the model are read by VTF.read with the same metadata, resources, sheets, frame keys and frame/thumbnail bytes: '
+                  f'{len(bad)} disagreements' + (f'; first: {json.dumps(bad[0], default=str)[:600]}' if bad else ''))
+    if bad:
+        ck.tie_broken.append('correspondence container model vs VTF.save / VTF.read')
+        ck.extra['container_disagreement'] = bad[:3]
+
+
 # ================================================================================================ frame life cycle
 FRAME_OBS = {
     'frame_init_has_no_pixels_and_no_file_source': 'efftable_eqb gen_eff_init ideal_clear',
@@ -1031,10 +1295,11 @@ def run(ck: Ck) -> None:
     ok1 = ck.translate('PixelCodecs_gen', c15_pixel.translate_codecs)
     ok2 = ck.translate('VtfLayout_gen', c15_pixel.translate_layout)
     ok3 = ck.translate('VtfFrameSM_gen', c15_frame.translate_frame)
+    ok4 = ck.translate('VtfContainer_gen', c15_container.translate_container)
     cod = None
     if ok1:
         cod, _ = c15_pixel.codecs_ir()
-    built = ok1 and ok2 and ok3 and ck.build(['Props/C15.vo'])
+    built = ok1 and ok2 and ok3 and ok4 and ck.build(['Props/C15.vo'])
     if built:
         ck.theorems('Props/C15.v')
         obs: dict[str, str] = {}
@@ -1071,6 +1336,8 @@ def run(ck: Ck) -> None:
         })
         ck.instance_obligations(IMPORTS, obs)
         ck.instance_obligations(IMPORTS_FRAME, FRAME_OBS, name='inst_frame')
+        ck.instance_obligations(IMPORTS_CONT, CONT_OBS, name='inst_cont')
+        corr_container(ck)
         corr_codecs(ck, cod)
     corr_frames(ck, bool(built))
     search_codecs(ck)
@@ -1085,6 +1352,18 @@ def run(ck: Ck) -> None:
             ck.explain(f'instance:{f}_')
             ck.explain('correspondence:')
             ck.explain('translate:PixelCodecs_gen')
+        if k.startswith(('sheet-differs', 'resources-differ', 'meta-', 'resave-differs')):
+            ck.explain('translate:VtfContainer_gen')
+            ck.explain('instance:site_')
+            ck.explain('instance:sheet_')
+            ck.explain('instance:header_')
+            ck.explain('instance:offset_entries')
+            ck.explain('instance:data_block')
+            ck.explain('instance:every_deferred')
+            ck.explain('instance:version_tests')
+            ck.explain('instance:padding_')
+            ck.explain('instance:reader_tests')
+            ck.explain('correspondence:container')
         if k.startswith(('frame-history-', 'lazy-resave-')):
             ck.explain('instance:frame_')
             ck.explain('instance:compute_mipmaps_')
@@ -1103,6 +1382,16 @@ def run(ck: Ck) -> None:
             ck.explain('build:')
         if k.startswith(('mipmap-count', 'frame-table', 'mip-dimensions', 'save-raises', 'read-raises', 'frame-dimensions', 'compute-mipmaps-raises', 'pixels-displaced')):
             ck.explain('translate:VtfLayout_gen')
+            ck.explain('translate:VtfContainer_gen')
+            ck.explain('instance:site_')
+            ck.explain('instance:header_')
+            ck.explain('instance:offset_entries')
+            ck.explain('instance:data_block')
+            ck.explain('instance:every_deferred')
+            ck.explain('instance:version_tests')
+            ck.explain('instance:padding_')
+            ck.explain('instance:reader_tests')
+            ck.explain('correspondence:container')
             ck.explain('instance:mip')
             ck.explain('instance:read_level')
             ck.explain('instance:save_and_read')
